@@ -108,9 +108,21 @@ func GenCase(r Rng, o Opts) hx.Sx {
 				if holdCol < 0 || col >= holdCol {
 					b := []byte(opsStr)
 					b[col] = 's'
-					js = fmt.Sprintf(`{"stream":"s%d","ops":"%s","kids":[{"ops":"%s"},{"ops":"%s"}]`, r.Intn(nstreams), string(b),
-						strings.Repeat("p", nAct), strings.Repeat("p", nAct))
+					js = fmt.Sprintf(`{"stream":"s%d","ops":"%s","kids":[{"ops":"%s","m":"%s"},{"ops":"%s","m":"%s"}]`, r.Intn(nstreams), string(b),
+						strings.Repeat("p", nAct), strings.Repeat("1", nAct+1), strings.Repeat("p", nAct), strings.Repeat("1", nAct+1))
 				}
+			}
+			{
+				// match mask (always present: an event without the field matches no action): a '0' at
+				// position i means action i's match conditions reject the event
+				mb := make([]byte, nAct+1)
+				for a := range mb {
+					mb[a] = '1'
+					if a < nAct && r.Chance(1, 9) {
+						mb[a] = '0'
+					}
+				}
+				js += fmt.Sprintf(`,"m":"%s"`, string(mb))
 			}
 			if r.Chance(1, 8) {
 				js += fmt.Sprintf(`,"slow":%d`, r.Range(50, 2000))
